@@ -1034,15 +1034,4 @@ func c09Mainnet() []string {
 	return append(ops, "cons")
 }
 
-func c09RepoDir() string {
-	// the harness module's replace directive names the tree under test
-	b, err := os.ReadFile("go.mod")
-	if err == nil {
-		for _, l := range strings.Split(string(b), "\n") {
-			if i := strings.Index(l, "github.com/teleport-network/teleport => "); i >= 0 {
-				return strings.TrimSpace(l[i+len("github.com/teleport-network/teleport => "):])
-			}
-		}
-	}
-	return "/repo"
-}
+func c09RepoDir() string { return repoDir() }
